@@ -10,6 +10,9 @@
 (*                 first in the trace, in bin order)                       *)
 (*   kind "same"   a variant that must give the same residual             *)
 (*   kind "zero"   output is an exact static combination of the inputs     *)
+(*   kind "pair"   the inputs as integer samples (ADC counts) against the  *)
+(*                 same numbers as float64 (r0): the number format of the  *)
+(*                 inputs must not matter (the output stays a float record)*)
 (*   kind "siso"   q = 1: r is sqrt(Gyy(1-coh))^2/Gyy from the two-channel *)
 (*                 analysis itself                                         *)
 (* Every clause is asserted on bins averaged over more than q segments:    *)
@@ -32,6 +35,7 @@ Step ==
        /\ Check("C15:residual_between_zero_and_output_spectrum", e.K <= T.c.q \/ (e.r >= 0 /\ e.r <= Q + 4))
        /\ Check("C15:residual_unchanged_by_reordering_remixing_solver", e.kind # "same" \/ e.K <= T.c.q \/ Within(e.r, Ref(e.j).r, 16))
        /\ Check("C15:residual_zero_for_exact_combination", e.kind # "zero" \/ e.K <= T.c.q \/ e.r <= 16)
+       /\ Check("C15:residual_independent_of_sample_number_format", e.kind # "pair" \/ e.K <= T.c.q \/ Within(e.r, e.r0, 4))
        /\ Check("C15:single_input_residual_is_Gyy_times_one_minus_coherence", e.kind # "siso" \/ e.K <= T.c.q \/ Within(e.r, Ref(e.j).r, 16))
     /\ l' = l + 1 /\ UNCHANGED tid
 Next == Step
